@@ -515,6 +515,18 @@ fn special_programs() -> Vec<(String, Vec<RealMode>)> {
         })
         .collect();
     named.append(&mut long);
+    // classes whose source text needs escaping inside a DOT string in every way (an escaped quote,
+    // a backslash, both, a quote right before the end); a mode without any pattern (it is only a
+    // transition target); a mode without transitions in front of it
+    named.push((
+        "escapes".to_string(),
+        vec![
+            RealMode { name: "E".into(), pats: vec![pat("\\\"[a-z]*\\\"", 1), pat("\\\\", 2), pat("a\\\\\\\"b|\\\\d", 3), pat("[\\\\\"]\\\"", 4)], trans: vec![(2, 1)] },
+            RealMode { name: "IDLE".into(), pats: vec![], trans: vec![] },
+            RealMode { name: "T".into(), pats: vec![crate::parse::RealPat { pattern: "x".into(), tt: 0, la: Some((false, "\\\"".into())) }], trans: vec![(0, 1)] },
+        ],
+    ));
+    named.push(("only-empty".to_string(), vec![RealMode { name: "EMPTY".into(), pats: vec![], trans: vec![] }]));
     named
 }
 
